@@ -33,7 +33,7 @@
    REFUTED (vm_compute witness on the faithful model; the real code agrees, corpus/C06): C06_lagging_sync_peer_refuted. *)
 From Coq Require Import ZArith NArith List Bool.
 From BHS Require Import Work Store Chain ChainSpec ChainAdd ChainMain SyncNode SyncDefault SyncExp SyncSys SyncSpec
-     SyncC07Proofs SyncC06Proofs SyncC06ExpProofs SyncMultiProofs SyncAnnounceProofs.
+     SyncC07Proofs SyncC06Proofs SyncC06ExpProofs SyncMultiProofs SyncAnnounceProofs SyncAnnounceExpProofs.
 Import ListNotations.
 Open Scope Z_scope.
 
@@ -115,6 +115,32 @@ Theorem C06_catchup_linear_exp : forall cfg gid C p cap res k s fuel,
     (exists es st, t1 = [(None, es, st)] /\ xentry_ok C p (Some (XHeaders []), es, st) /\ es <> []) /\
     Forall (xentry_ok C p) t2.
 Proof. exact catchup_linear_exp. Qed.
+
+
+(* experimental engine: a headers announcement after its initial sync (that engine ignores inv: syncedCheckpoints is never set) *)
+Theorem C06_announce_headers_exp : forall cfg gid C new p cap rest,
+  good_chain (x_forb cfg) gid (C ++ new) -> cps_ok gid C (x_cps cfg) -> (1 <= cap)%nat -> new <> [] -> (length new <= cap)%nat ->
+  forall z fuel, xidle_ok cfg gid C new p rest z ->
+  (forall h, In h new -> by_hash (e_store (z_eng z)) (s_id h) = None) ->
+  exists z1 z2 es st,
+    z_cmd z (CAnnounce p (length new) false) = (z1, []) /\
+    z_cmd z1 (CRun (S fuel)) = (z2, [(Some (XHeaders new), es, st)]) /\
+    (es = [] \/ es = [SendHdrs p]) /\ xquiet z2 = true /\ e_shm (z_eng z2) = true /\
+    Good gid (C ++ new) (length (C ++ new)) (e_store (z_eng z2)).
+Proof. exact announce_headers_exp. Qed.
+
+(* the sync peer's done event with one other (fresh, connected, not-behind) candidate: that peer becomes the sync peer and is sent
+   exactly one getheaders: locator of the store, stop = next checkpoint's hash or zero; store / nextCheckpoint untouched *)
+Theorem C06_resync_after_done_partial : forall cfg hint st p q c oq, q <> p ->
+  d_sync st = Some p -> aget p (d_states st) = Some c -> adel p (d_states st) = [(q, true)] ->
+  aget q (d_objs st) = Some oq -> po_conn oq = true -> po_ps oq = None ->
+  tip_height (d_store st) <= po_last oq ->
+  let stop := match d_next st with Some (H, cid) => if tip_height (d_store st) <? H then cid else 0%N | None => 0%N end in
+  exists st' pre,
+    on_done cfg hint st p = (st', pre ++ [GetHeaders q (locator (d_store st)) stop]) /\ (pre = [] \/ pre = [Disconnect p]) /\
+    d_sync st' = Some q /\ d_states st' = [(q, true)] /\ d_store st' = d_store st /\ d_next st' = d_next st /\
+    (d_hfm st = true -> d_hfm st' = true).
+Proof. exact resync_after_done. Qed.
 
 (* ---- several peers, stalls, disconnects, any schedule and any sync-peer choices: SAFETY only ---- *)
 (* (S1) whatever is stored was pre-loaded or delivered in some headers message (i.e. is on some peer's offered tree) *)
@@ -201,6 +227,8 @@ Print Assumptions C06_catchup_linear_enabled.
 Print Assumptions C06_catchup_linear_disabled.
 Print Assumptions C06_announce_inv.
 Print Assumptions C06_announce_headers.
+Print Assumptions C06_announce_headers_exp.
+Print Assumptions C06_resync_after_done_partial.
 Print Assumptions C06_disabled_now_syncs_example.
 Print Assumptions C06_announce_now_followed_example.
 Print Assumptions C06_lagging_sync_peer_refuted.
